@@ -55,12 +55,21 @@ func GoMod(module string) string { return "module " + module + "\n" + GoModTail 
 type Tree struct {
 	Files map[string]string `json:"files"`
 	Dirs  []string          `json:"dirs,omitempty"`
+	// Links are symbolic links: path → target ({{ROOT}} is substituted). A link to /dev/full is
+	// how a world gets a path on which every write fails with ENOSPC.
+	Links map[string]string `json:"links,omitempty"`
 }
 
 func (t Tree) Clone() Tree {
 	n := Tree{Files: map[string]string{}, Dirs: append([]string(nil), t.Dirs...)}
 	for k, v := range t.Files {
 		n.Files[k] = v
+	}
+	for k, v := range t.Links {
+		if n.Links == nil {
+			n.Links = map[string]string{}
+		}
+		n.Links[k] = v
 	}
 	return n
 }
@@ -93,6 +102,15 @@ func (t Tree) Materialise(root string) error {
 			return err
 		}
 		if err := os.WriteFile(full, []byte(subst(t.Files[p], root)), 0o644); err != nil {
+			return err
+		}
+	}
+	for _, p := range core.SortedKeys(t.Links) {
+		full := filepath.Join(root, p)
+		if err := os.MkdirAll(filepath.Dir(full), 0o755); err != nil {
+			return err
+		}
+		if err := os.Symlink(subst(t.Links[p], root), full); err != nil {
 			return err
 		}
 	}
@@ -156,6 +174,19 @@ func (s Snapshot) Digest() string {
 	return hex.EncodeToString(h.Sum(nil))
 }
 
+// ReadRegular reads a file of a world only if it is a regular file: a world may hold a link to
+// /dev/full (an endless device), which the harness must never follow.
+func ReadRegular(path string) ([]byte, error) {
+	info, err := os.Lstat(path)
+	if err != nil {
+		return nil, err
+	}
+	if !info.Mode().IsRegular() {
+		return nil, fmt.Errorf("%s: not a regular file (%v)", path, info.Mode())
+	}
+	return os.ReadFile(path)
+}
+
 // HashBytes is the content hash used in snapshots.
 func HashBytes(b []byte) string {
 	h := sha256.Sum256(b)
@@ -167,6 +198,9 @@ func TreeDigest(t Tree) string {
 	h := sha256.New()
 	for _, k := range core.SortedKeys(t.Files) {
 		fmt.Fprintf(h, "%s\x00%s\x00", k, t.Files[k])
+	}
+	for _, k := range core.SortedKeys(t.Links) {
+		fmt.Fprintf(h, "link\x00%s\x00%s\x00", k, t.Links[k])
 	}
 	ds := append([]string(nil), t.Dirs...)
 	sort.Strings(ds)
